@@ -25,10 +25,15 @@ def report(chk, so, violations, entry=ENTRY, prop='C22', extra_native=()):
     for v in violations[:10]:
         text = bytes(v['inputs']['text'])
         args = native_args(text) + list(extra_native)
-        r = llcheck.native_call(so, entry, args, ret='c_uint32')
+        stepbound = v.get('code') == 'stepbound'
+        r = llcheck.native_call(so, entry, args, ret='c_uint32', timeout=20 if stepbound else 60)
         what = '%s(%r): %s; native call: %r' % (entry, text, v['what'], r)
         if r[0] == 'ret' and r[1] == 0:
-            chk.inconclusive_note('model did not reproduce natively: ' + what); continue
+            chk.inconclusive_note(('the step bound is too small for this input (it finishes natively): ' if stepbound else 'model did not reproduce natively: ') + what); continue
+        if stepbound and r[0] == 'ret':
+            continue        # finishes natively with another verdict: that verdict is found on its own path
+        if stepbound:
+            what = '%s(%r) does not terminate: %s; the native call %s' % (entry, text, v['what'], 'was still running after %d s' % r[1] if r[0] == 'timeout' else 'died (%r) — memory limit of 8 GB' % (r[1],))
         key = {'kind': 'lex', 'code': str(v['code'])}
         path = llcheck.make_harness_replay(prop, 'text_%d' % len(chk.violations), 'llharness', entry, args, what, key, ret='c_uint32')
         chk.report(key, what, path)
